@@ -120,6 +120,12 @@ def run(ctx, selftest=False):
         if t["events"][0]["N"] > 1:
             ctx.nontrivial([(e["api"], e["path"], e["nbatches"], e["nprior"], e["group"]) for e in t["events"] if e["ev"] == "Call"]
                            + [tuple(e["rows"]) for e in t["events"] if e["ev"] == "Return"])
+    if not quick:
+        # thorough: the sampler calls made by the repository's own tests, recorded and validated like every other trace
+        from .. import repotests
+        rt, rinfo = repotests.collect(ctx.workdir)
+        ctx.notes["repository_test_traces"] = rinfo
+        traces = traces + rt
     ctx.sample(c02._brief(traces[0])); ctx.sample(c02._brief(traces[-1]))
     verdicts = ctx.validate("SamplerTrace", traces, timeout=3000)
     ctx.judge(traces, verdicts, families=FAMILIES)
